@@ -238,10 +238,10 @@ theorem wf_fieldExtras (f : FieldMeta) : wfKws (fieldExtras f) = true := by
   unfold fieldExtras
   simp only [wfKws_append, wf_optStr_title, wf_optStr_description, Bool.true_and, Bool.and_eq_true]
   refine ⟨⟨⟨?_, ?_⟩, ?_⟩, ?_⟩
-  · split <;> simp [wfKws_nil, wfKws_cons, wfEntry, wfSimple, schemaKeywords, schemaArrayKeywords, schemaMapKeywords]
-  · split <;> simp [wfKws_nil, wfKws_cons, wfEntry, wfSimple, schemaKeywords, schemaArrayKeywords, schemaMapKeywords]
-  · split <;> simp [wfKws_nil, wfKws_cons, wfEntry, wfSimple, schemaKeywords, schemaArrayKeywords, schemaMapKeywords]
-  · split <;> simp [wfKws_nil, wfKws_cons, wfEntry, wfSimple, schemaKeywords, schemaArrayKeywords, schemaMapKeywords]
+  · unfold deprecatedSeg; split <;> simp [wfKws_nil, wfKws_cons, wfEntry, wfSimple, schemaKeywords, schemaArrayKeywords, schemaMapKeywords]
+  · unfold modeSeg; split <;> simp [wfKws_nil, wfKws_cons, wfEntry, wfSimple, schemaKeywords, schemaArrayKeywords, schemaMapKeywords]
+  · unfold exampleSeg; split <;> simp [wfKws_nil, wfKws_cons, wfEntry, wfSimple, schemaKeywords, schemaArrayKeywords, schemaMapKeywords]
+  · unfold aliasSeg; split <;> simp [wfKws_nil, wfKws_cons, wfEntry, wfSimple, schemaKeywords, schemaArrayKeywords, schemaMapKeywords]
 
 theorem wf_reqSeg (cfg : Cfg) (o : Opts) (ms : List FieldMeta) (h : strDistinct (ms.map (·.name)) = true) :
     wfKws (reqSeg cfg o ms) = true := by
